@@ -230,6 +230,11 @@ class TraceInterp(Interp):
             if name in self.fns and len(self.fns[name]) == 1 and self.depth < self.max_depth and \
                     self.fns[name][0]["sig"]["inputs"] and self.fns[name][0]["sig"]["inputs"][0]["t"] == "Receiver" and isinstance(recv, Sym) and recv.label == "self":
                 return self.follow(self.fns[name][0], [self.eval(a, env) for a in e["args"]], recv)
+            if isinstance(recv, Res) and name in ("map_err", "or_else") and len(e["args"]) == 1:
+                # the error side is transformed, the outcome (Ok / Err) is unchanged
+                return recv if recv.ok else Res(False, Sym("mapped-error", (recv.v,)))
+            if isinstance(recv, Res) and name == "map" and len(e["args"]) == 1:
+                return Res(True, Sym("m:map", (recv.v,))) if recv.ok else recv
             if isinstance(recv, Res) and name in ("unwrap", "expect") and recv.ok:
                 return recv.v
             if isinstance(recv, (Opt, Res)) and name in ("unwrap", "is_some", "is_none", "is_ok", "is_err", "ok", "cloned", "copied"):
